@@ -2,7 +2,10 @@
 
 package store
 
-import "context"
+import (
+	"context"
+	"errors"
+)
 
 // VerifHook, when set by the conformance harness, is called at the yield points named in
 // /verif/MANIFEST.json (hooks). It may block: the harness uses it as a scheduler gate.
@@ -21,4 +24,17 @@ func VerifSetDeleteParallelThreshold(n uint64) uint64 {
 	old := deleteRangeParallelThreshold
 	deleteRangeParallelThreshold = n
 	return old
+}
+
+// VerifHeightSub hands a bare heightSub to the conformance harness (no call sites in the library).
+type VerifHeightSub struct{ hs *heightSub }
+
+func VerifNewHeightSub() *VerifHeightSub           { return &VerifHeightSub{hs: newHeightSub()} }
+func (v *VerifHeightSub) Init(h uint64)            { v.hs.Init(h) }
+func (v *VerifHeightSub) Height() uint64           { return v.hs.Height() }
+func (v *VerifHeightSub) SetHeight(h uint64)       { v.hs.SetHeight(h) }
+func (v *VerifHeightSub) Notify(heights ...uint64) { v.hs.Notify(heights...) }
+func (v *VerifHeightSub) Elapsed(err error) bool   { return errors.Is(err, errElapsedHeight) }
+func (v *VerifHeightSub) WaitUnless(ctx context.Context, h uint64, present func() bool) error {
+	return v.hs.WaitUnless(ctx, h, present)
 }
